@@ -1,4 +1,5 @@
 import MJ.Model.SafeProg
+import MJ.Model.SafeCheck
 /-! Line driver for C02.  Input line: `<id>\t<step>|<step>|…` with steps
 
   D <cps>            data string            R <cps>     template text
@@ -94,13 +95,15 @@ def failingStep : List Step → St → Nat → Nat
 
 /-! ### programs as S-expressions
 
-  prog  := (prog <main> tmpl…)            tmpl := (tmpl <name> <parent|_> (macros macro…) stmt…)
+  prog  := (prog <main> (modes (<name> <h|n|j>)…) (fmt default|noneundef) tmpl…)
+  tmpl  := (tmpl <name> <parent|_> (imports imp…) (pre stmt…) (macros macro…) stmt…)
+  imp   := (mod <tmpl> <alias>) | (from <tmpl> (<name> <alias>)…)
   macro := (macro <name> (params <p>…) stmt…)
   stmt  := (text s) (emit e) (set n e) (setblock n (filt name p…)|(nofilt) stmt…) (filterblock name (ps p…) stmt…)
            (for v e <0|1> (body stmt…) (else stmt…)) (if e (then stmt…) (else stmt…)) (with n e stmt…)
            (callblock m (args e…) stmt…) (include name) (block name stmt…) (auto tru|fals|<s> stmt…)
   expr  := (var n) (lit s) (int i) (bool b) (none) (cat a b) (add a b) (mul a n) (filt name (ps p…) e…)
-           (meth name (ps p…) recv e…) (index a k) (slice a x y) (attr a key) (list e…) (dict (key e)…) (call m e…) (caller) (super)
+           (modcall alias m e…) (modvar alias x) (meth name (ps p…) recv e…) (index a k) (slice a x y) (attr a key) (list e…) (dict (key e)…) (call m e…) (caller) (super)
            (looprec e) (loopindex) (loopfirst) (not e) (cond c a b)
   ctx   := (ctx (name cv)…)   cv := (s str) (i n) (b 0|1) (n) (y <b,b,…|->) (f str) (o str) (l cv…) (m (key cv)…)
   all names and strings are code-point lists as above -/
@@ -158,6 +161,8 @@ partial def toExpr : Sexp → Option Expr
       | Sexp.list [k, e] => do some ((← sStr k), (← toExpr e))
       | _ => none))
   | .list (.atom "call" :: m :: args) => do some (.call (← sStr m) (← args.mapM toExpr))
+  | .list (.atom "modcall" :: a :: m :: args) => do some (.modCall (← sStr a) (← sStr m) (← args.mapM toExpr))
+  | .list [.atom "modvar", a, x] => do some (.modVar (← sStr a) (← sStr x))
   | .list [.atom "caller"] => some .caller
   | .list [.atom "super"] => some .super
   | .list [.atom "looprec", e] => do some (.loopRec (← toExpr e))
@@ -200,16 +205,30 @@ def toMacro : Sexp → Option MacroDef
     some { name := (← sStr n), params := (← ps.mapM sStr), body := (← body.mapM toStmt) }
   | _ => none
 
+def toImport : Sexp → Option ImportDecl
+  | .list [.atom "mod", t, a] => do some (.asModule (← sStr t) (← sStr a))
+  | .list (.atom "from" :: t :: ns) => do
+    some (.names (← sStr t) (← ns.mapM fun (x : Sexp) => match x with
+      | Sexp.list [n, a] => do some ((← sStr n), (← sStr a))
+      | _ => none))
+  | _ => none
+
 def toTmpl : Sexp → Option Tmpl
-  | .list (.atom "tmpl" :: n :: parent :: .list (.atom "macros" :: ms) :: body) => do
+  | .list (.atom "tmpl" :: n :: parent :: .list (.atom "imports" :: is) :: .list (.atom "pre" :: pre) :: .list (.atom "macros" :: ms) :: body) => do
     let par ← match parent with
       | .atom "_" => some none
       | x => (sStr x).map some
-    some { name := (← sStr n), parent := par, macros := (← ms.mapM toMacro), body := (← body.mapM toStmt) }
+    some { name := (← sStr n), parent := par, imports := (← is.mapM toImport), pre := (← pre.mapM toStmt),
+           macros := (← ms.mapM toMacro), body := (← body.mapM toStmt) }
   | _ => none
 
 def toProg : Sexp → Option Prog
-  | .list (.atom "prog" :: main :: ts) => do some { main := (← sStr main), templates := (← ts.mapM toTmpl) }
+  | .list (.atom "prog" :: main :: .list (.atom "modes" :: ms) :: .list [.atom "fmt", .atom f] :: ts) => do
+    let modes ← ms.mapM fun (x : Sexp) => match x with
+      | Sexp.list [n, .atom m] => do some ((← sStr n), (← parseMode m))
+      | _ => none
+    some { main := (← sStr main), templates := (← ts.mapM toTmpl), modes := modes,
+           fmt := if f == "noneundef" then .noneAsUndef else .default }
   | _ => none
 
 partial def toCV : Sexp → Option CV
@@ -248,11 +267,40 @@ def handle (line : String) : String :=
   | [id, "PROG", strict, prog, ctx] =>
     match (parseSexp prog).bind toProg, (parseSexp ctx).bind toCtx with
     | some p, some c =>
-      match execProg (strict == "1") p c with
-      | some st => showSt id st
-      | none => s!"{id}\tERR"
+      -- strict "2": the guarded interpreter first (success = the run stays inside the fragment of the
+      -- theorem: every expression is written under Html or into an opaque target, no Json mode, no
+      -- `safe`/`tojson`); otherwise the unguarded one
+      -- last field: does the decision procedure `progOkB` (sound for the syntactic class `ProgOk`) accept it?
+      let syn := if strict == "2" then (if progOkB p then "\tprogok" else "\tnotprogok") else ""
+      match execProg (strict != "0") p c with
+      | some st => showSt id st ++ (if strict == "2" then "\tfragment" else "") ++ syn
+      | none =>
+        if strict == "2" then
+          match execProg false p c with
+          | some st => showSt id st ++ "\toutside" ++ syn
+          | none => s!"{id}\tERR"
+        else s!"{id}\tERR"
     | none, _ => s!"{id}\tBAD program"
     | _, none => s!"{id}\tBAD context"
+  | [id, "BLOCK", strict, block, prog, ctx] =>
+    match (parseSexp prog).bind toProg, (parseSexp ctx).bind toCtx, parseCps block with
+    | some p, some c, some b =>
+      match execBlock (strict != "0") p b c with
+      | some st => showSt id st ++ (if strict == "2" then "\tfragment" else "")
+      | none =>
+        if strict == "2" then
+          match execBlock false p b c with
+          | some st => showSt id st ++ "\toutside"
+          | none => s!"{id}\tERR"
+        else s!"{id}\tERR"
+    | _, _, _ => s!"{id}\tBAD block case"
+  | [id, "EXPR", strict, e, ctx] =>
+    match (parseSexp e).bind toExpr, (parseSexp ctx).bind toCtx with
+    | some e, some c =>
+      match execExpr (strict == "1") e c with
+      | some (v, st) => s!"{id}\tOK\t{encV v}\t{encStr st.out}\t{if decide (Clean st.out) then "clean" else "TAINTED-META"}"
+      | none => s!"{id}\tERR"
+    | _, _ => s!"{id}\tBAD expression case"
   | [id, prog] =>
     match (prog.splitOn "|").mapM parseStep with
     | .error e => s!"{id}\tBAD {e}"
